@@ -1674,38 +1674,69 @@ func checkGlobIntoDir(c *Ctx, r *Report) {
 		return
 	}
 	n := 0
-	forEachInstr(g, func(in ssa.Instruction) {
-		call, ok := in.(*ssa.Call)
-		if !ok || !calleeIs(call, "path/filepath", "", "Base") {
-			return
+	pa := newProv(c)
+	var fns []*ssa.Function
+	for _, fn := range sortedFuncs(c, c.Reach(g)) {
+		if c.funcPkgPath(fn) == c.funcPkgPath(g) {
+			fns = append(fns, fn)
 		}
-		// the test that guards the block using the base name
-		b := call.Block()
-		var cond ssa.Value
-		for d := b; d != nil && cond == nil; d = d.Idom() {
-			for _, p := range d.Preds {
-				if ifi, isIf := p.Instrs[len(p.Instrs)-1].(*ssa.If); isIf && p.Succs[0] == d && len(d.Preds) == 1 {
-					cond = ifi.Cond
+	}
+	// the guard seen from Glob: a helper's parameter stands for what its
+	// single call site passes
+	var resolve func(v ssa.Value, fn *ssa.Function, d int) (ssa.Value, *ssa.Function)
+	resolve = func(v ssa.Value, fn *ssa.Function, d int) (ssa.Value, *ssa.Function) {
+		prm, ok := v.(*ssa.Parameter)
+		if !ok || fn == g || d > 2 {
+			return v, fn
+		}
+		idx := -1
+		for i, q := range fn.Params {
+			if q == prm {
+				idx = i
+			}
+		}
+		sites := pa.callSites(fn)
+		if idx < 0 || len(sites) != 1 || idx >= len(sites[0].Common().Args) {
+			return v, fn
+		}
+		return resolve(sites[0].Common().Args[idx], sites[0].Parent(), d+1)
+	}
+	for _, fn := range fns {
+		forEachInstr(fn, func(in ssa.Instruction) {
+			call, ok := in.(*ssa.Call)
+			if !ok || !calleeIs(call, "path/filepath", "", "Base") {
+				return
+			}
+			// the test that guards the block using the base name
+			b := call.Block()
+			var cond ssa.Value
+			for d := b; d != nil && cond == nil; d = d.Idom() {
+				for _, p := range d.Preds {
+					if ifi, isIf := p.Instrs[len(p.Instrs)-1].(*ssa.If); isIf && p.Succs[0] == d && len(d.Preds) == 1 {
+						cond = ifi.Cond
+					}
+				}
+				if d == b.Parent().Blocks[0] {
+					break
 				}
 			}
-			if d == b.Parent().Blocks[0] {
-				break
-			}
-		}
-		n++
-		ok2 := false
-		why := "the placement under the base name is not guarded by a test at all"
-		if cond != nil {
-			why = "the guard is " + shorten(valueExpr(c, cond, 0), 80)
-			if hs, isCall := cond.(*ssa.Call); isCall && calleeIs(hs, "strings", "", "HasSuffix") && len(hs.Call.Args) == 2 && constOrEmpty(hs.Call.Args[1]) == "/" {
-				if prm, isPrm := hs.Call.Args[0].(*ssa.Parameter); isPrm && prm.Parent() == g {
-					ok2 = true
+			n++
+			ok2 := false
+			why := "the placement under the base name is not guarded by a test at all"
+			if cond != nil {
+				cv, cfn := resolve(cond, fn, 0)
+				why = "the guard is " + shorten(valueExpr(c, cv, 0), 80)
+				if hs, isCall := cv.(*ssa.Call); isCall && calleeIs(hs, "strings", "", "HasSuffix") && len(hs.Call.Args) == 2 && constOrEmpty(hs.Call.Args[1]) == "/" {
+					av, afn := resolve(hs.Call.Args[0], cfn, 0)
+					if prm, isPrm := av.(*ssa.Parameter); isPrm && afn == g && prm.Parent() == g {
+						ok2 = true
+					}
 				}
 			}
-		}
-		r.Check(ok2, "G-into-dir", fmt.Sprintf("glob.Glob: base-name placement#%d is decided by the destination's trailing slash alone", n), c.instrPos(call),
-			"expected the guard strings.HasSuffix(dst, \"/\") on the destination parameter; "+why+": for some sources a destination ending in '/' would not place the match directly in that directory")
-	})
+			r.Check(ok2, "G-into-dir", fmt.Sprintf("glob.Glob: base-name placement#%d is decided by the destination's trailing slash alone", n), c.instrPos(call),
+				"expected the guard strings.HasSuffix(dst, \"/\") on the destination parameter; "+why+": for some sources a destination ending in '/' would not place the match directly in that directory")
+		})
+	}
 	r.Floor("G-into-dir", n, 1)
 }
 
